@@ -7,8 +7,8 @@ package c10
 
 import (
 	"bytes"
-	gojson "encoding/json"
 	"encoding/json"
+	gojson "encoding/json"
 	"fmt"
 	"io"
 	"strings"
@@ -69,9 +69,9 @@ var seedDocs = []string{
 }
 
 func run(r *core.Run) {
-	segN := 3
+	segN := 4
 	if r.Thorough() {
-		segN = 4
+		segN = 5
 	}
 	strs := stringsUpTo(segN)
 	do := func(kind, doc string) bool {
@@ -189,7 +189,7 @@ func run(r *core.Run) {
 		r.Guard(c, func() { checkData(r, c, d) })
 		return true
 	})
-	if r.Thorough() {
+	{
 		r.Section("DG values nested: containers of containers")
 		var lvl []gen.Data
 		gen.Containers(gen.ScalarData([]string{"a", "\u0000"})[:8], []string{"a", ""}, 2, func(d gen.Data) bool { lvl = append(lvl, d); return len(lvl) < 400 })
